@@ -779,4 +779,63 @@ theorem recurse_subvals : ∀ (k : Nat) (v : Val), v.size ≤ k → recurse iter
 
 end more
 
+/-! ### `skip` against its `foreach` definition (integer counts) -/
+
+section skipdef
+variable {α : Type}
+
+theorem cmp_int0 {n : Val} {k : Int} (h : IsIntV n k) : Val.cmp n vZero = compare k 0 := by
+  obtain ⟨x, rfl, hx⟩ := h
+  rw [show Val.cmp (.num x) vZero = Num.cmp x (.int 0) from rfl]
+  rcases intVal_cases hx with rfl | rfl <;> simp only [Num.cmp, Num.undec]
+
+theorem not_lt0_int {n : Val} {k : Int} (h : IsIntV n k) : (Val.cmp n vZero != .lt) = decide (0 ≤ k) := by
+  rw [cmp_int0 h]
+  by_cases hk : 0 ≤ k
+  · have : compare k 0 ≠ .lt := fun hh => by have := Int.compare_eq_lt.mp hh; omega
+    simp [hk, this]
+  · have : compare k 0 = .lt := Int.compare_eq_lt.mpr (by omega)
+    simp [hk, this]
+
+/-- once the count is `<= 0` the `foreach` of `skipDef` passes everything through -/
+theorem skipDef_pass : ∀ (vs : List α) (s : Stop) (c : Val) (k : Int), IsIntV c k → k ≤ 0 →
+    foreachSpec (fun (_ : α) c => ofExcept (Val.sub c vOne))
+      (fun x c => if Val.cmp c vZero != .lt then nil else Out.pure x) vs s c = ⟨vs, s⟩ := by
+  intro vs
+  induction vs with
+  | nil => intro s c k _ _; rfl
+  | cons v vs ih =>
+    intro s c k h hk
+    obtain ⟨c', hd, hc'⟩ := dec_int h
+    simp only [foreachSpec, hd, ofExcept_bind_ok, not_lt0_int hc']
+    have : ¬ (0 ≤ k - 1) := by omega
+    simp only [this, decide_false]
+    rw [ih s c' (k - 1) hc' (by omega)]
+    rfl
+
+theorem skipDef_loop : ∀ (vs : List α) (s : Stop) (c : Val) (k : Int), IsIntV c k → 0 < k →
+    foreachSpec (fun (_ : α) c => ofExcept (Val.sub c vOne))
+      (fun x c => if Val.cmp c vZero != .lt then nil else Out.pure x) vs s c
+    = skipLoop valCounter c vs s := by
+  intro vs
+  induction vs with
+  | nil =>
+    intro s c k h hk
+    obtain ⟨c', hd, _⟩ := dec_int h
+    simp [foreachSpec, skipLoop, valCounter_gtz, valCounter_dec, gt0_int h, hk, hd]
+  | cons v vs ih =>
+    intro s c k h hk
+    obtain ⟨c', hd, hc'⟩ := dec_int h
+    simp only [foreachSpec, skipLoop, valCounter_gtz, valCounter_dec, gt0_int h, hk, decide_true, if_true,
+      hd, ofExcept_bind_ok, not_lt0_int hc']
+    have : 0 ≤ k - 1 := by omega
+    simp only [this, decide_true, if_true, nil_append]
+    by_cases hk1 : 0 < k - 1
+    · exact ih s c' (k - 1) hc' hk1
+    · rw [skipDef_pass vs s c' (k - 1) hc' (by omega)]
+      have hg : gt0 c' = false := by rw [gt0_int hc']; exact decide_eq_false hk1
+      cases vs <;> simp [skipLoop, valCounter_gtz, hg, halted]
+
+end skipdef
+
 end Jaq.C11
